@@ -1336,6 +1336,9 @@ func TestHTBlockTails(t *testing.T) {
 	shard, shards := core.EnvInt("VERIF_SHARD", 0), max(1, core.EnvInt("VERIF_SHARDS", 1))
 	n := 0
 	for _, name := range []string{"htj2k-block32", "htj2k-block64"} {
+		if name == "htj2k-block64" && !core.Thorough() {
+			continue // quick: the 32x32 block (the smallest whose MEL stream reaches the last state)
+		}
 		it := byName[name]
 		if it == nil {
 			panic("harness: pool stream " + name + " missing")
@@ -1345,9 +1348,6 @@ func TestHTBlockTails(t *testing.T) {
 			panic("harness: " + name + " does not end in EOC")
 		}
 		step := 1
-		if !core.Thorough() {
-			step = 1
-		}
 		for pre := 0; pre < 5; pre++ {
 			if !core.Thorough() && (pre == 2 || pre == 4) {
 				continue
@@ -1385,7 +1385,7 @@ func TestHTBlockTails(t *testing.T) {
 			}
 		}
 	}
-	core.ExhaustiveDone("all 65536 values of the last two bytes of a single HT code-block (32x32, 64x64) x 5 settings of the bytes in front", int64(n))
+	core.ExhaustiveDone("all 65536 values of the last two bytes of a single HT code-block (quick: 32x32, 3 settings of the bytes in front; thorough: 32x32 and 64x64, 5 settings)", int64(n))
 }
 
 // TestSegmentInsert: a well-formed marker segment the stream did not have, inserted at every
